@@ -60,7 +60,7 @@ type verifPtrWorld struct {
 	objs  map[types.Object]ssa.Member
 	rtyps typeutil.Map
 
-	intT, P, PP, S, PS, SL, M, CH, E, FN types.Type
+	intT, elem, P, PP, S, PS, SL, M, CH, E, FN types.Type
 	I                                     *types.Interface
 	iM                                    *types.Func
 	namedT                                [2]types.Type
@@ -178,7 +178,7 @@ func (w *verifPtrWorld) call(fnVal ssa.Value, args []ssa.Value, t types.Type, ca
 	return v
 }
 
-func verifNewPtrWorld() *verifPtrWorld {
+func verifNewPtrWorld(structElem bool) *verifPtrWorld {
 	w := &verifPtrWorld{funcs: map[*ssa.Function]bool{}, objs: map[types.Object]ssa.Member{}}
 	w.tpkg = types.NewPackage("main", "main")
 	w.tpkg.MarkComplete()
@@ -189,7 +189,15 @@ func verifNewPtrWorld() *verifPtrWorld {
 	w.pkg.Prog = w.prog
 
 	w.intT = types.Typ[types.Int]
+	w.elem = w.intT
 	w.P = types.NewPointer(w.intT)
+	if structElem {
+		// type N struct{ next *N }
+		named := types.NewNamed(types.NewTypeName(token.NoPos, w.tpkg, "N", nil), nil, nil)
+		w.P = types.NewPointer(named)
+		named.SetUnderlying(types.NewStruct([]*types.Var{types.NewField(token.NoPos, w.tpkg, "next", w.P, false)}, nil))
+		w.elem = named
+	}
 	w.PP = types.NewPointer(w.P)
 	w.S = types.NewStruct([]*types.Var{
 		types.NewField(token.NoPos, w.tpkg, "f", w.P, false),
@@ -417,6 +425,16 @@ func (w *verifPtrWorld) transport(t int, v ssa.Value, other ssa.Value, variant i
 	case ptSelectRecv:
 		ch := w.val(&ssa.MakeChan{Size: w.intConst(1)}, w.CH)
 		w.emit(&ssa.Send{Chan: ch, X: v})
+		if variant == 1 {
+			// a receive from a channel of integers listed before the receive of the pointer
+			stop := w.val(&ssa.MakeChan{Size: w.intConst(1)}, types.NewChan(types.SendRecv, w.intT))
+			sel := w.val(&ssa.Select{States: []*ssa.SelectState{{Dir: types.RecvOnly, Chan: stop}, {Dir: types.RecvOnly, Chan: ch}}, Blocking: true}, types.NewTuple(
+				types.NewVar(token.NoPos, nil, "index", w.intT),
+				types.NewVar(token.NoPos, nil, "ok", types.Typ[types.Bool]),
+				types.NewVar(token.NoPos, nil, "r0", w.intT),
+				types.NewVar(token.NoPos, nil, "r1", w.P)))
+			return w.val(&ssa.Extract{Tuple: sel, Index: 3}, w.P)
+		}
 		sel := w.val(&ssa.Select{States: []*ssa.SelectState{{Dir: types.RecvOnly, Chan: ch}}, Blocking: true}, types.NewTuple(
 			types.NewVar(token.NoPos, nil, "index", w.intT),
 			types.NewVar(token.NoPos, nil, "ok", types.Typ[types.Bool]),
@@ -518,15 +536,15 @@ func (w *verifPtrWorld) transport(t int, v ssa.Value, other ssa.Value, variant i
 // from position split on are executed inside a callee mid(p, q *int) *int that main calls statically), and stores
 // the final value into a fresh cell.
 func verifBuildPtrChain(ts []int, variants []int, k int, split int) *verifPtrWorld {
-	w := verifNewPtrWorld()
+	w := verifNewPtrWorld(false)
 	mainFn := w.newFn("main", w.sig(nil, nil))
 	var midFn *ssa.Function
 	if split < len(ts) {
 		midFn = w.newFn("mid", w.sig([]types.Type{w.P, w.P}, []types.Type{w.P}))
 	}
 	w.beginFn(mainFn)
-	w.A[0] = w.alloc(w.intT, "a0")
-	w.A[1] = w.alloc(w.intT, "a1")
+	w.A[0] = w.alloc(w.elem, "a0")
+	w.A[1] = w.alloc(w.elem, "a1")
 	v, other := w.A[k], w.A[1-k]
 	w.Chain = append(w.Chain, v)
 	for i := 0; i < len(ts) && i < split; i++ {
@@ -559,4 +577,241 @@ func verifBuildPtrChain(ts []int, variants []int, k int, split int) *verifPtrWor
 	verifSetUnexported(w.pkg, "objects", w.objs)
 	verifSetUnexported(w.prog, "runtimeTypes", w.rtyps)
 	return w
+}
+
+// ---------------------------------------------------------------------------------------------------------------
+// Concurrent program family for the escape / locality properties (C13, C14).
+//
+// main allocates obj := new(N) (type N struct{ next *N }), moves its address through transports (as above), makes one
+// value of the chain reachable from another goroutine through a leak form - the goroutine writes obj.next - and then
+// accesses obj.next itself through a value of the chain. The access and the goroutine's write touch the same memory
+// cell without synchronisation, so by construction the access instruction touches memory reachable from another
+// goroutine (and the race detector could report it).
+
+const (
+	lkGo = iota
+	lkGlobal
+	lkChan
+	lkClosure
+	lkHolder
+	lkCallee
+	lkCalleeDefer
+	lkInvoke
+	lkFuncValue
+	lkInterior
+	lkNumLeaks
+	lkNone = -1
+)
+
+const (
+	acStore = iota
+	acLoad
+	acCalleeStore
+	acNumAccesses
+)
+
+// VerifRacyAccess is an instruction that touches shared memory by construction; Via is the call instruction of main
+// through which the enclosing function is reached (nil: the function is main or a goroutine entry).
+type VerifRacyAccess struct {
+	Instr ssa.Instruction
+	Fn    *ssa.Function
+	Via   *ssa.Call
+}
+
+type VerifShareWorld struct {
+	Prog   *ssa.Program
+	Funcs  map[*ssa.Function]bool
+	Main   *ssa.Function
+	Racy   []VerifRacyAccess
+	Leaked bool
+}
+
+// writeNext emits  p.next = p  and returns the store.
+func (w *verifPtrWorld) writeNext(p ssa.Value) *ssa.Store {
+	fa := w.val(&ssa.FieldAddr{X: p, Field: 0}, w.PP)
+	st := &ssa.Store{Addr: fa, Val: p}
+	w.emit(st)
+	return st
+}
+
+// fnWith builds a one-block function with the given parameter types whose body is emitted by body.
+func (w *verifPtrWorld) fnWith(name string, params []types.Type, body func(ps []ssa.Value)) *ssa.Function {
+	if m, ok := w.pkg.Members[name]; ok {
+		return m.(*ssa.Function)
+	}
+	f := w.newFn(name, w.sig(params, nil))
+	sFn, sBlocks, sCur, sCurB := w.fn, w.blocks, w.cur, w.curB
+	w.beginFn(f)
+	var ps []ssa.Value
+	for _, t := range params {
+		ps = append(ps, w.param(f, "p", t, nil))
+	}
+	body(ps)
+	w.emit(&ssa.Return{})
+	w.endFn()
+	w.fn, w.blocks, w.cur, w.curB = sFn, sBlocks, sCur, sCurB
+	return f
+}
+
+func (w *verifPtrWorld) goCall(f ssa.Value, args ...ssa.Value) {
+	g := &ssa.Go{}
+	g.Call.Value = f
+	g.Call.Args = args
+	w.emit(g)
+}
+
+func (w *verifPtrWorld) plainCall(f ssa.Value, args ...ssa.Value) *ssa.Call {
+	c := &ssa.Call{}
+	c.Call.Value = f
+	c.Call.Args = args
+	w.val(c, types.NewTuple())
+	return c
+}
+
+func VerifBuildShareProgram(ts, variants []int, leak, leakAt, access, accessAt int) *VerifShareWorld {
+	w := verifNewPtrWorld(true)
+	out := &VerifShareWorld{Prog: w.prog, Funcs: w.funcs}
+	racy := func(i ssa.Instruction, f *ssa.Function, via *ssa.Call) {
+		out.Racy = append(out.Racy, VerifRacyAccess{i, f, via})
+	}
+	var writerStore *ssa.Store
+	writer := w.fnWith("writer", []types.Type{w.P}, func(ps []ssa.Value) { writerStore = w.writeNext(ps[0]) })
+	mainFn := w.newFn("main", w.sig(nil, nil))
+	out.Main = mainFn
+	w.beginFn(mainFn)
+	w.A[0] = w.alloc(w.elem, "obj")
+	w.A[1] = w.alloc(w.elem, "other")
+	v := w.A[0]
+	w.Chain = append(w.Chain, v)
+	for i := range ts {
+		v = w.transport(ts[i], v, w.A[1], variants[i])
+		w.Chain = append(w.Chain, v)
+	}
+	r := w.Chain[leakAt%len(w.Chain)]
+	q := w.Chain[accessAt%len(w.Chain)]
+	out.Leaked = leak != lkNone
+	switch leak {
+	case lkGo:
+		w.goCall(writer, r)
+		racy(writerStore, writer, nil)
+	case lkGlobal:
+		var st *ssa.Store
+		gw := w.fnWith("gwriter", nil, func([]ssa.Value) { st = w.writeNext(w.load(w.global, w.P)) })
+		w.store(w.global, r)
+		w.goCall(gw)
+		racy(st, gw, nil)
+	case lkChan:
+		var st *ssa.Store
+		cw := w.fnWith("cwriter", []types.Type{w.CH}, func(ps []ssa.Value) {
+			st = w.writeNext(w.val(&ssa.UnOp{Op: token.ARROW, X: ps[0]}, w.P))
+		})
+		ch := w.val(&ssa.MakeChan{Size: w.intConst(1)}, w.CH)
+		w.goCall(cw, ch)
+		w.emit(&ssa.Send{Chan: ch, X: r})
+		racy(st, cw, nil)
+	case lkClosure:
+		f := w.newFn("clwriter", w.sig(nil, nil))
+		fv := &ssa.FreeVar{}
+		verifSetUnexported(fv, "name", "fv")
+		verifSetUnexported(fv, "typ", w.P)
+		verifSetUnexported(fv, "parent", f)
+		f.FreeVars = []*ssa.FreeVar{fv}
+		sFn, sBlocks, sCur, sCurB := w.fn, w.blocks, w.cur, w.curB
+		w.beginFn(f)
+		st := w.writeNext(fv)
+		w.emit(&ssa.Return{})
+		w.endFn()
+		w.fn, w.blocks, w.cur, w.curB = sFn, sBlocks, sCur, sCurB
+		mc := w.val(&ssa.MakeClosure{Fn: f, Bindings: []ssa.Value{r}}, f.Signature)
+		w.goCall(mc)
+		racy(st, f, nil)
+	case lkHolder:
+		var st *ssa.Store
+		hw := w.fnWith("hwriter", []types.Type{w.PS}, func(ps []ssa.Value) {
+			fa := w.val(&ssa.FieldAddr{X: ps[0], Field: 0}, w.PP)
+			st = w.writeNext(w.load(fa, w.P))
+		})
+		h := w.alloc(w.S, "holder")
+		w.goCall(hw, h)
+		w.store(w.val(&ssa.FieldAddr{X: h, Field: 0}, w.PP), r)
+		racy(st, hw, nil)
+	case lkInterior:
+		// obj.next = other; leakNext(obj) with  func leakNext(p *N) { t := p.next; go pwriter(&t.next) }  and
+		// func pwriter(pp **N) { *pp = nil } : the goroutine writes other.next, which main then accesses
+		var st *ssa.Store
+		pw := w.fnWith("pwriter", []types.Type{w.PP}, func(ps []ssa.Value) {
+			st = &ssa.Store{Addr: ps[0], Val: ssa.NewConst(nil, w.P)}
+			w.emit(st)
+		})
+		ln := w.fnWith("leakNext", []types.Type{w.P}, func(ps []ssa.Value) {
+			t := w.load(w.val(&ssa.FieldAddr{X: ps[0], Field: 0}, w.PP), w.P)
+			w.goCall(pw, w.val(&ssa.FieldAddr{X: t, Field: 0}, w.PP))
+		})
+		w.store(w.val(&ssa.FieldAddr{X: r, Field: 0}, w.PP), w.A[1])
+		w.plainCall(ln, r)
+		racy(st, pw, nil)
+		q = w.A[1]
+	case lkCallee, lkCalleeDefer, lkInvoke, lkFuncValue:
+		share := w.fnWith("share", []types.Type{w.P}, func(ps []ssa.Value) { w.goCall(writer, ps[0]) })
+		racy(writerStore, writer, nil)
+		switch leak {
+		case lkCallee:
+			w.plainCall(share, r)
+		case lkCalleeDefer:
+			ds := w.fnWith("dshare", []types.Type{w.P}, func(ps []ssa.Value) {
+				d := &ssa.Defer{}
+				d.Call.Value = share
+				d.Call.Args = []ssa.Value{ps[0]}
+				w.emit(d)
+				w.emit(&ssa.RunDefers{})
+			})
+			w.plainCall(ds, r)
+		case lkFuncValue:
+			fc := w.alloc(share.Signature, "fcell")
+			w.store(fc, share)
+			w.plainCall(w.load(fc, share.Signature), r)
+		case lkInvoke:
+			// T0.M(p) { share(p); return p } : the leak happens inside an interface method implementation
+			m := w.methT[0]
+			p := m.Params[1]
+			c := &ssa.Call{}
+			c.Call.Value = share
+			c.Call.Args = []ssa.Value{p}
+			verifSetUnexported(c, "typ", types.Type(types.NewTuple()))
+			w.simpleFn(m, []ssa.Instruction{c, &ssa.Return{Results: []ssa.Value{p}}})
+			tp := w.alloc(w.namedT[0], "recv")
+			tv := w.load(tp, w.namedT[0])
+			iv := w.val(&ssa.MakeInterface{X: tv}, w.I)
+			ic := &ssa.Call{}
+			ic.Call.Value = iv
+			ic.Call.Method = w.iM
+			ic.Call.Args = []ssa.Value{r}
+			w.val(ic, w.P)
+		}
+	}
+	switch access {
+	case acStore:
+		racy(w.writeNext(q), mainFn, nil)
+	case acLoad:
+		fa := w.val(&ssa.FieldAddr{X: q, Field: 0}, w.PP)
+		ld := w.load(fa, w.P)
+		racy(ld.(ssa.Instruction), mainFn, nil)
+		out.useLoad(w, ld)
+	case acCalleeStore:
+		var st *ssa.Store
+		touch := w.fnWith("touch", []types.Type{w.P}, func(ps []ssa.Value) { st = w.writeNext(ps[0]) })
+		c := w.plainCall(touch, q)
+		racy(st, touch, c)
+	}
+	w.emit(&ssa.Return{})
+	w.endFn()
+	verifSetUnexported(w.pkg, "objects", w.objs)
+	verifSetUnexported(w.prog, "runtimeTypes", w.rtyps)
+	return out
+}
+
+// useLoad keeps the loaded value alive as an operand (stores it into a fresh cell).
+func (o *VerifShareWorld) useLoad(w *verifPtrWorld, v ssa.Value) {
+	c := w.alloc(w.P, "sinkcell")
+	w.store(c, v)
 }
